@@ -3,12 +3,19 @@ namespace Yaclib.CoSharedMutex
 
 set_option maxHeartbeats 4000000 in
 theorem inv_step_2 {cfg s l s'} (hi : Inv cfg s) (hs : Step s l s') (hg : grpOf l = 2) : Inv cfg s' := by
-  cases hi
   cases hs with
-  | enterR c h => sm_dbg [List.count_le_length, List.length_eq_zero_iff, length_pos_of_ne_nil]
-  | enterW c h => sm_dbg [List.count_le_length, List.length_eq_zero_iff, length_pos_of_ne_nil]
-  | exitR c h => sm_dbg [List.count_le_length, List.length_eq_zero_iff, length_pos_of_ne_nil]
-  | exitW c h => sm_dbg [List.count_le_length, List.length_eq_zero_iff, length_pos_of_ne_nil]
+  | enterR c h =>
+      cases hi
+      sm_auto [List.count_le_length]
+  | enterW c h =>
+      cases hi
+      sm_auto [List.count_le_length]
+  | exitR c h =>
+      cases hi
+      sm_auto [List.count_le_length]
+  | exitW c h =>
+      cases hi
+      sm_auto [List.count_le_length]
   | _ => simp [grpOf] at hg
 
 end Yaclib.CoSharedMutex
